@@ -178,11 +178,22 @@ def execute(case):
     def probe(k, n=1):
         probes[k] = probes.get(k, 0) + n
 
+    broken = [False, False]
+
+    def do_sort(c, how):
+        try:
+            cont[c].sort()
+        except Exception as e:      # re-indexing must not fail on a legal feature set
+            broken[c] = True
+            log.add('sort-raise', c, type(e).__name__)
+            viol.append({'property': PROPERTY, 'class': 'reindex-raised', 'signature': type(e).__name__,
+                         'detail': {'container': c, 'how': how, 'error': repr(e)[:200], 'n_features': len(model[c])}})
+        dirty[c] = False
+        epoch[c] += 1
+
     def ensure_sorted(c):
         if dirty[c]:
-            cont[c].sort()
-            dirty[c] = False
-            epoch[c] += 1
+            do_sort(c, 'implicit')
             log.add('sort', c, 'implicit')
 
     def check(opi, op, got, want):
@@ -213,9 +224,7 @@ def execute(case):
             log.add('add', c, chrom, a, b, name, strand)
         elif kind == 'sort':
             if model[c]:
-                cont[c].sort()
-                dirty[c] = False
-                epoch[c] += 1
+                do_sort(c, 'explicit')
             log.add('sort', c)
         elif kind == 'churn':
             if not model[c]:
@@ -223,6 +232,8 @@ def execute(case):
                 model[c].append(('chr1', 0, 10, 'churn', None))
                 dirty[c] = True
             ensure_sorted(c)
+            if broken[c]:
+                continue
             before = FeatureContainer.findFeaturesAt.cache_info()
             for i in range(op[2]):
                 cont[c].findFeaturesAt('chr1', op[3] * 7919 + i, None)
@@ -234,6 +245,8 @@ def execute(case):
             if not model[c]:
                 continue
             ensure_sorted(c)
+            if broken[c]:
+                continue
             key = repr(op)
             if key in asked[c] and asked[c][key] < epoch[c]:
                 probe('repeat_query_across_reindex')
